@@ -137,7 +137,7 @@ enum ZipFileReader<'a> {
 
 impl<'a> Read for ZipFileReader<'a> {
     fn read(&mut self, buf: &mut [u8]) -> io::Result<usize> {
-        match self {
+        let count = match self {
             ZipFileReader::NoReader => panic!("ZipFileReader was in an invalid state"),
             ZipFileReader::Raw(r) => r.read(buf),
             ZipFileReader::Stored(r) => r.read(buf),
@@ -151,7 +151,39 @@ impl<'a> Read for ZipFileReader<'a> {
             ZipFileReader::Bzip2(r) => r.read(buf),
             #[cfg(feature = "zstd")]
             ZipFileReader::Zstd(r) => r.read(buf),
+        }?;
+        if count == 0 && !buf.is_empty() {
+            self.verify_aes_auth_code()?;
         }
+        Ok(count)
+    }
+}
+
+impl<'a> ZipFileReader<'a> {
+    /// A decompressor may report the end of its stream before it has consumed all of the
+    /// encrypted data, in which case the AES reader has not reached the authentication code
+    /// yet. Reading the remaining ciphertext makes it verify the code.
+    fn verify_aes_auth_code(&mut self) -> io::Result<()> {
+        #[cfg(feature = "aes-crypto")]
+        {
+            let crypto_reader: &mut CryptoReader<'a> = match self {
+                #[cfg(any(
+                    feature = "deflate",
+                    feature = "deflate-miniz",
+                    feature = "deflate-zlib"
+                ))]
+                ZipFileReader::Deflated(r) => r.get_mut().get_mut(),
+                #[cfg(feature = "bzip2")]
+                ZipFileReader::Bzip2(r) => r.get_mut().get_mut(),
+                #[cfg(feature = "zstd")]
+                ZipFileReader::Zstd(r) => r.get_mut().get_mut().get_mut(),
+                _ => return Ok(()),
+            };
+            if let CryptoReader::Aes { reader, .. } = crypto_reader {
+                io::copy(reader, &mut io::sink())?;
+            }
+        }
+        Ok(())
     }
 }
 
